@@ -47,6 +47,9 @@ func runC08(r *Run) {
 	cfg := drawAlgoCfg(t, []string{"vegas", "gradient", "gradient2"}, nil)
 	k := int64(t.Draw(1<<40, "twin-seed"))
 	nPrefix := t.Intn(scale(200, 900), "prefix")
+	if t.Chance(10, "short-prefix") || (cfg.Ctor != "" && t.Chance(60, "short-prefix-ctor")) {
+		nPrefix = t.Intn(4, "prefix-short") // the state right after construction (plus the sample that sets the baseline)
+	}
 	g := newEnvGen(r)
 	g.maxRTT = 1 << 52
 	if cfg.Name == "gradient2" && t.Chance(50, "g2-small-units") {
@@ -126,6 +129,26 @@ func runC08(r *Run) {
 		lo = lvl + lvl*int64(t.Intn(9, "g2-k"))/8
 		hi = lo + 1 + int64(t.Intn(3, "g2-d"))
 	}
+	if cfg.Name == "vegas" && estA > 1 && baseA > 0 && t.Chance(40, "vegas-queue-pair") {
+		// the control signal is queue = ceil(limit x (1 - baseline/rtt)): a pair of rtts that yields two chosen queue
+		// estimates q1 < q2 (0 .. 14), so that every threshold between the increase, keep and decrease zones is straddled
+		rttFor := func(q int) int64 {
+			if q <= 0 {
+				return base
+			}
+			den := float64(estA) - float64(q) + 0.5
+			if den <= 0 {
+				den = 0.5
+			}
+			return int64(float64(base) * float64(estA) / den)
+		}
+		q1 := t.Intn(minInt(estA, 14)+1, "q-lo")
+		q2 := q1 + 1 + t.Intn(6, "q-step")
+		if l, h := rttFor(q1), rttFor(q2); l >= base && h > l {
+			lo, hi = l, h
+			r.Probe("vegas_pair_by_queue_estimate")
+		}
+	}
 	if cfg.Name == "gradient" && a.qfunc != nil && estA > 1 && t.Chance(50, "gradient-near-break-even") {
 		// around the rtt at which the new limit equals the old one (gradient x est + queue == est): decreases of a
 		// fraction of a unit, where a rounding or a smoothing decision can flip between two neighbouring rtts
@@ -165,7 +188,8 @@ func runC08(r *Run) {
 		}
 		start = lastEnd + int64(t.Intn(1000000, "final-gap"))
 		if t.Chance(50, "quiet-gap-pair") {
-			c := []int64{1e9, 6e10, 36e11, 864e11}[t.Intn(4, "quiet-gap")]
+			// 0: the pair's completions straddle the newest completion of the history (requests overtake each other)
+			c := []int64{1e9, 6e10, 36e11, 864e11, 0}[t.Intn(5, "quiet-gap")]
 			w := hi - lo
 			if w > 1000 {
 				w = 1000
